@@ -479,6 +479,11 @@ CHECKS["C18"] = {
          "with": ["state_export", "backend_export", "verifdb"], "goroutines": True, "concrete_time": True, "replay_timeout_s": 60,
          "params": {"quick": grid(m=[1, 2, 3]), "thorough": grid(m=[4, 5])},
          "cover": ["lines-served"]},
+        {"name": "wireisolation", "pkg": "internal/session", "pkgname": "session", "entry": "VerifC18WireIsolation", "files": ["zz_verif_c18.go", "zz_verif_c18b.go", "zz_verif_c01.go", "zz_verif_c01idle.go", "zz_verif_c01idle2.go", "zz_verif_c01wire.go", "zz_verif_c18wire.go"],
+         "with": ["state_export", "backend_export", "verifdb"], "goroutines": True, "concrete_time": True, "replay_timeout_s": 90,
+         "extra_overlay": {"internal/response/zz_verif_decode.go": "internal/response/zz_verif_decode.go"},
+         "params": {"quick": grid(k=[1, 2]), "thorough": grid(k=[3, 4])},
+         "cover": ["alice-acted"]},
     ],
     "stubs": ["connector.Connector stub (Authorize returns a chosen answer)", "time.AfterFunc -> recorded, never fired", "sync.WaitGroup / Mutex -> single-goroutine model (Wait on a non-zero group = BLOCKED)", "profiling / observability / reporter / logrus -> no-op"],
     "outside": ["'each user has its own database, store and connector' is object wiring, not a computation (the login harness checks that the session is bound to the matching user's object)", "real time (that the jail lasts exactly loginJailTime)", "non-ASCII credential bytes"],
@@ -526,3 +531,5 @@ CHECKS["C10"]["explanation"] += " VerifC10WireChunks: a fixed conversation (LOGI
 CHECKS["C02"]["explanation"] += " VerifC02WireConnector: a client on the wire has INBOX selected while the connector delivers MessagesCreated / MessageFlagsUpdated / MessagesDeleted through the real backend appliers and the real update queue; mirror, wire probe and fresh-session comparison as in the two-client harness."
 
 CHECKS["C17"]["explanation"] += " VerifC17Wire: on the wire through the real session loop with at most 4 mailboxes and 3 messages per mailbox: histories of CREATE (also with a missing superior) / APPEND / COPY: after OK every listed mailbox holds at most 3 messages (STATUS) and at most 3 mailboxes are listed; a command answered NO changed neither the list nor any count."
+
+CHECKS["C18"]["explanation"] += " VerifC18WireIsolation: two users with a client each on the wire: whatever alice does to her account (CREATE, APPEND, STORE, EXPUNGE, COPY, RENAME), everything bob's client can see (LIST, STATUS, UID FETCH of his INBOX) stays what it was and bob cannot open what alice created."
